@@ -4,6 +4,7 @@
 (* non-printable above, zero, 0xFF) and every layout bpl, bpc <= 3, plus the *)
 (* two I/O-drawer formats; and the literal line formats of the code.         *)
 EXTENDS HexDump, TLC
+CONSTANT PreFirst       \* deviation: the dump-file reader tries the pre-BMC format first
 VARIABLES data, phase, ok
 Bytes == {0, 32, 65, 126, 127, 255}
 Datas == UNION {[1..n -> Bytes] : n \in 0..5}
@@ -25,11 +26,25 @@ DrawerOK(d) ==
     \* blank and comment lines do not contribute
     /\ Parse(<<<<>>, <<35, 32, 120>>>> \o RenderBMC(d, FALSE) \o <<<<10>>>>, FmtBMC) = d
 
+\* the dump-file reader: whatever comment or blank lines stand before, between and after the data lines
+\* (among them titles that begin with a hex-digit letter), both formats read back to the data
+CommentLines == {<<>>, <<10>>, <<35, 32, 120>>, <<68, 114, 97, 119, 101, 114>>, <<100, 117, 109, 112, 10>>,
+                 <<69, 110, 99, 108>>, <<45, 45, 45>>, <<48, 120>>}
+Order == IF PreFirst THEN <<FmtPre, FmtBMC>> ELSE <<FmtBMC, FmtPre>>
+Decorate(lines, c1, c2) ==
+    <<c1>> \o (IF lines = <<>> THEN <<>> ELSE <<lines[1]>> \o <<c2>> \o SubSeq(lines, 2, Len(lines))) \o <<c2, c1>>
+FileOK(d) ==
+    /\ \A c \in CommentLines : IsComment(c)
+    /\ \A c1 \in CommentLines : \A c2 \in {c1, <<69, 110, 99, 108>>} : \A lower \in BOOLEAN :
+          /\ ReadDumpFile(Decorate(RenderBMC(d, lower), c1, c2), Order) = d
+          /\ ReadDumpFile(Decorate(RenderPre(d, lower), c1, c2), Order) = d
+
 Init == data \in Datas /\ phase = "chosen" /\ ok = TRUE
 Evaluate == /\ phase = "chosen" /\ phase' = "evaluated" /\ data' = data
             /\ ok' = /\ \A bpl \in 1..3, bpc \in 1..3 : LayoutOK(data, bpl, bpc)
                      /\ LayoutOK(data \o data \o data \o data, 16, 4)
                      /\ DrawerOK(data \o data \o data \o data)
+                     /\ FileOK(data \o data \o data \o data)
 Next == Evaluate
 Spec == Init /\ [][Next]_<<data, phase, ok>>
 Lossless == ok
